@@ -122,6 +122,9 @@ class H2Protocol:
                 h2.settings.SettingCodes.ENABLE_CONNECT_PROTOCOL: 1,
             },
         )
+        # The decoder only picks up the limit when a settings change
+        # is acknowledged, which initial values never are.
+        self.connection.decoder.max_header_list_size = config.h2_max_header_list_size
 
         self.keep_alive_requests = 0
         self.send = send
